@@ -163,26 +163,33 @@ def run(chk):
         proofs_ok = chk.compile_chain(["Gen_C07.v"], ["C07_lemmas.v", "C07_analytic.v"], "C07.v", timeout=900)
     # ---- T2
     tie_ok = _tie(chk)
-    proofs_ok = _dalitz_finish(chk, dalitz) and proofs_ok
-    # ---- numeric harness / failing-input search
-    n = 400 if chk.tier == "thorough" else 32
+    # ---- numeric harness / failing-input search (the dalitz chain keeps compiling meanwhile)
+    n = 400 if chk.tier == "thorough" else 26
     if not (proofs_ok and tie_ok):
-        n = max(n, 120)
-    rc, doc, out = chk.bridge_json("search_C07.py", [str(chk.seed), str(n)], timeout=1700)
-    if doc is None:
-        chk.broken.append({"file": "search_C07.py", "item": "numeric harness", "coqc_output": out[-1500:]})
-        doc = {"evaluations": 0, "distinct": 0, "samples": [], "failures": []}
-    chk.add_cases(doc["evaluations"], doc["distinct"], doc["samples"],
-                  "search: physical events (sequential two-body decays; massless, near-threshold, highly boosted; CM and "
-                  "boosted lab) x adapters (single/multi/isomorphic/permutated topologies) x cse on/off; every variable vs "
-                  "Minkowski norm / bridge/frames.py / Dalitz closed form / other topologies; evaluations = well-conditioned "
-                  "variable-event comparisons, distinct = events")
-    chk.cov.setdefault("input_distribution", {}).update({"search_" + k: v for k, v in doc.get("kinds", {}).items()})
-    if "ill_conditioned_skipped" in doc:
-        chk.notes.append(f"search: {doc['ill_conditioned_skipped']} ill-conditioned variable-event pairs skipped; "
-                         f"max error/tolerance {doc.get('max_err_over_dev', 0):.3g}")
-    for f in doc["failures"]:
-        chk.violation(f["signature"], f["what"], {"case": f["case"], "search": "search_C07.py"}, True)
+        n = max(n, 90)
+
+    def search(n_cases, first):
+        rc, doc, out = chk.bridge_json("search_C07.py", [str(chk.seed), str(n_cases)], timeout=1700)
+        if doc is None:
+            chk.broken.append({"file": "search_C07.py", "item": "numeric harness", "coqc_output": out[-1500:]})
+            doc = {"evaluations": 0, "distinct": 0, "samples": [], "failures": []}
+        chk.add_cases(doc["evaluations"], doc["distinct"], doc["samples"] if first else [],
+                      "search: physical events (sequential two-body decays; massless, near-threshold, highly boosted; CM and "
+                      "boosted lab) x adapters (single/multi/isomorphic/permutated topologies) x cse on/off; every variable vs "
+                      "Minkowski norm / bridge/frames.py / Dalitz closed form / other topologies; evaluations = well-conditioned "
+                      "variable-event comparisons, distinct = events" if first else "")
+        chk.cov.setdefault("input_distribution", {}).update({"search_" + k: v for k, v in doc.get("kinds", {}).items()})
+        if "ill_conditioned_skipped" in doc:
+            chk.notes.append(f"search({n_cases}): {doc['ill_conditioned_skipped']} ill-conditioned variable-event pairs "
+                             f"skipped; max error/tolerance {doc.get('max_err_over_dev', 0):.3g}")
+        for f in doc["failures"]:
+            chk.violation(f["signature"], f["what"], {"case": f["case"], "search": "search_C07.py"}, True)
+        return doc
+
+    search(n, True)
+    dal_ok = _dalitz_finish(chk, dalitz)
+    if not dal_ok and not chk.violations and n < 90:
+        search(90, False)       # clause 3 stopped checking: look deeper for a failing input
     real_fail = bool(chk.violations)
     if chk.broken and not real_fail:
         b = chk.broken[0]
